@@ -217,6 +217,7 @@ void h_adopt(void) {
   struct tentry* r = (in_init == ES_active) ? tbl_acquire_entry(&T) : tbl_acquire_inactive_entry(&T);
   if (some_free) {
     unsigned rk = XV_E; for (unsigned k = 0; k < XV_E; k++) if (r == &epool[k]) rk = k;
+    XV_OBL("tbl.abandon.release", XV_IS_ACQUIRE(m_head_load_o));       /* sync: the walk over the published entries starts with an acquire load of head */
     XV_OBL("tbl.adopt.reuses", g_alloc == 0 && rk < in_ne && in_state[rk] == ES_free && r->state == in_init);
     XV_OBL("tbl.adopt.reuses", T.head == g_head0 && m_head_cas_n == 0 && m_head_store_n == 0);
     XV_OBL("tbl.adopt.reuses", j >= in_ne || (j == rk || epool[j].state == in_state[j]) && epool[j].next_entry == ((j + 1 < in_ne) ? &epool[j + 1] : (struct tentry*)0));
